@@ -134,6 +134,9 @@ type lockState struct {
 	writer  bool
 	readers int
 	holder  int
+	// goroutines blocked in Lock: Go's RWMutex gives a waiting writer preference, new
+	// readers (also a reader that already holds the lock) queue behind it
+	pending map[int]bool
 }
 
 type Violation struct {
